@@ -236,6 +236,9 @@ func c11taKeySets(c *Ctx) []c11taSet {
 		{"affixes-digits", []string{"k", "k_", "_k", "k_1", "k1", "k10", "k01", "1", "10", "01"}},
 		{"metadata-like", []string{"_outs", "_args", "files", "split", "join", "chnk0", "journal", "_complete", "chnk0.u0123456789"}},
 		{"middle-differs", []string{mid("X"), mid("Y"), mid("."), mid("/"), mid("")}},
+		{"middle-differs-long", []string{c11taRep("a", 110) + "X" + c11taRep("b", 60), c11taRep("a", 110) + "Y" + c11taRep("b", 60), c11taRep("a", 110) + c11taRep("b", 60),
+			c11taRep("a", 85) + "X" + c11taRep("a", 85), c11taRep("a", 85) + "Y" + c11taRep("a", 85), c11taRep("é", 8) + "X" + c11taRep("é", 8), c11taRep("é", 8) + "Y" + c11taRep("é", 8)}},
+		{"suffix-sorts-first", []string{"matched_normal", "normal", "a_b", "b", "xb", "0_1", "1", "_1"}},
 		{"empty-key", []string{"", "a"}},
 		{"quote-backslash", []string{"\"", "\\", "a\"b", "a\\b", "'", "`", "*", "?", "~", "#", "&", ";", "|", "<", ">", "(", "{"}},
 	}
@@ -664,5 +667,58 @@ func c11KeyLens(c *Ctx) {
 		} else {
 			r.hist("keylen_dir_too_long")
 		}
+	}
+}
+
+// c11LongKeys: families of LONG map keys (100-400 bytes) with equal prefixes and suffixes that differ only
+// in the middle, ASCII and non-ASCII: the real makeKeySafe / fork id / journal name against the model
+// (the model is injective at every length: pathEscape_injective, forkName_injective), and the forks of
+// one family must get pairwise distinct directories and journal names on the real code.
+func c11LongKeys(c *Ctx) {
+	r := c.Res
+	nfam := 12
+	if c.Thorough {
+		nfam = 200
+	}
+	units := []string{"a", "ab", "é", "日本", "/", ".", "%", " ", "x_", "\xff"}
+	for fi := 0; fi < nfam; fi++ {
+		u1, u2 := units[c.Rng.Intn(len(units))], units[c.Rng.Intn(len(units))]
+		pre := c11taRep(u1, (40+c.Rng.Intn(160))/len(u1))
+		suf := c11taRep(u2, (20+c.Rng.Intn(120))/len(u2))
+		mids := []string{"", "X", "Y", "XY", "YX", ".", "/", "%", "~", "é", u1, u2, c11taRep("m", 1+c.Rng.Intn(40)), c11taRep("m", 41+c.Rng.Intn(40)), "_", "1", "0"}
+		seen := map[string]bool{}
+		var keys []string
+		for _, m := range mids {
+			k := pre + m + suf
+			if !seen[k] {
+				seen[k] = true
+				keys = append(keys, k)
+			}
+		}
+		var reqs [][]string
+		var forks []c11Fork
+		for _, k := range keys {
+			ps := []c11Part{{Kind: "map", Key: k, Keys: keys, Static: c.Rng.Intn(2) == 0}}
+			reqs = append(reqs, []string{"C11.esc", hx(k)}, []string{"C11.forkid", c11EncodeParts(ps)})
+			id, ok, e := c11ForkId(ps)
+			if !ok {
+				r.note("long keys: ForkIdString failed: %s", e)
+				continue
+			}
+			forks = append(forks, c11Fork{ps, id})
+		}
+		reps := c.Drv.AskBatch(reqs)
+		for i, k := range keys {
+			r.count("longkey:"+k, true)
+			r.hist("long_keys")
+			safe := core.VerifMakeKeySafe(k)
+			id, _, _ := c11ForkId([]c11Part{{Kind: "map", Key: k, Keys: keys, Static: true}})
+			if hx(safe) != reps[2*i] || "some "+hx(id) != reps[2*i+1] {
+				r.violate(Violation{Kind: "correspondence", Key: "C11:long-key-model-mismatch", What: "makeKeySafe / the fork id of a long map key differs from the model (pathEscape, forkIdString)",
+					Input: map[string]interface{}{"key": k, "key_len": len(k)}, Impl: map[string]string{"safe": safe, "fork_id": id},
+					Model: map[string]string{"safe": unhx(reps[2*i]), "fork_id": unhx(strings.TrimPrefix(reps[2*i+1], "some "))}, Broken: "correspondence C11.esc / C11.forkid (pathEscape_injective, forkName_injective)"})
+			}
+		}
+		c11CheckDistinct(c, forks, "long-keys")
 	}
 }
